@@ -275,6 +275,12 @@ def grid_cases():
     yield 5, [Tpl('{1..3000000}', 3000000, 3000000)], [], False
     yield 1000, [Tpl('a{1..1500000}{x,y}', 3000000, 3000000)], [], False
     yield 3, [rng('h_', 2)], [Tpl('{1..3000000}', 3000000, 3000000)], False
+    # the exclusions use up the limit exactly (or all but one): the inclusion must still be rejected after O(L) work
+    for L in (1, 2, 3, 5, 32):
+        yield L, [Tpl('{1..3000000}', 3000000, 3000000)], [rng('e_', L)], False
+        yield L, [Tpl('{1..3000000}', 3000000, 3000000)], [rng('e_', L)], True
+        yield L + 1, [Tpl('x{1..3000000}', 3000000, 3000000)], [rng('e_', L)], False
+        yield L, [rng('a_', 1), Tpl('{1..3000000}', 3000000, 3000000)], [rng('e_', max(1, L - 1))], False
     yield 5, [Tpl('{1..100000000}', 100000000, 100000000)], [], False
     # limit=0 disables the check
     yield 0, [rng('z_', 1500)], [], False
